@@ -478,8 +478,13 @@ func (e *Eng) eval(st *State, x ast.Expr) *Val {
 		v := e.eval(st, x.X)
 		t := e.info.TypeOf(x.Type)
 		if sortOf(t) == "Iface" {
-			e.gap("type assertion to interface type abstracted")
-			return e.freshVal("ta", t)
+			ok := e.implTerm(v, t)
+			if e.ownPanicsChecked() {
+				e.oblige(st, "nopanic", "type-assert "+e.src(x), ok, x.Pos())
+			} else {
+				e.assume(st, ok)
+			}
+			return scalar(v.T, "Iface", t)
 		}
 		tagOK := fmt.Sprintf("(= (itag %s) %d)", v.T, e.tagOf(t))
 		if e.ownPanicsChecked() {
